@@ -221,6 +221,54 @@ def _task(task):
   return res
 
 
+def _length_family(res, seed):
+  """Series of ANOTHER length re-assigned to an object that has already
+  served every derived quantity: after each step every derived quantity and
+  estimate_required_impact(0.9) equal those of a fresh object."""
+  import numpy as np
+  s, cls = _G['series'], _G['cls']
+  rng = np.random.default_rng([seed, 809])
+  fam = {}
+  for tag, n in (('short', N_POINTS - 9), ('long', N_POINTS + 26)):
+    c = 90.0 + 9.0 * rng.normal(size=n)
+    fam[tag] = (c, 30.0 + 1.2 * c + 0.8 * rng.normal(size=n))
+
+  def fresh(x, y):
+    out = {}
+    for q in READS + ['estimate_required_impact(0.9)']:
+      d = cls(y, s['par'])
+      d.x = x
+      out[q] = (d.estimate_required_impact(0.9) if q.startswith('estimate')
+                else getattr(d, q))
+    return out
+
+  for order in (('short', 'long'), ('long', 'short'), ('long',), ('short',)):
+    d = cls(s['u'], s['par'])
+    d.x = s['a']
+    hist = ['y:=u', 'x:=a', 'read all']
+    for q in READS:
+      getattr(d, q)
+    d.estimate_required_impact(0.9)
+    for tag in order:
+      x, y = fam[tag]
+      d.y = y
+      d.x = x
+      hist += ['y:=%s series (len %d)' % (tag, len(y)),
+               'x:=%s series' % tag, 'read all']
+      want = fresh(x, y)
+      res.evaluations += 1
+      res.nontrivial.add(('length-family',) + tuple(hist))
+      for q in READS + ['estimate_required_impact(0.9)']:
+        got = (d.estimate_required_impact(0.9) if q.startswith('estimate')
+               else getattr(d, q))
+        if not _same(got, want[q]):
+          res.violation('C08/after-length-change-equals-fresh-object', {
+              'seed': seed, 'history': list(hist), 'quantity': q,
+              'got': _brief(got), 'fresh': _brief(want[q]),
+              'series_lengths': {t: len(v[1]) for t, v in fam.items()}})
+          return
+
+
 def run(tier, seed):
   warnings.simplefilter('ignore')
   maxlen = 4 if tier == 'quick' else 5
@@ -258,6 +306,10 @@ def run(tier, seed):
       if len(res.samples) < 5:
         res.samples.append(smp)
     res.violations.extend(part.violations)
+  _length_family(res, seed)
+  res.notes.append('plus a scripted family: series of other lengths (%d, %d) '
+                   're-assigned to an object that already served every '
+                   'quantity' % (N_POINTS - 9, N_POINTS + 26))
   # Shortest histories first.
   res.violations.sort(key=lambda v: (len(v['input']['history']),
                                      v['input'].get('history_codes', [])))
